@@ -10,31 +10,44 @@ from harness.common import Ck, coq_bool, coq_list, coq_str, parse_coq_N_list, pa
 from translate import c16_fgd
 
 MANIFEST = dict(
-    technique='Rocq proof (writer/reader round trip for all strings, codec tables and bit packings, memoisation '
-              'invariant of the lazy database for all query orders) + ast translator + vm_compute correspondence + '
-              'export/parse/export and binary round-trip oracles on the complete bundled database and generated FGDs',
-    text='Theorems in Props/C16.v: for every text, indent and line tail the reader (_handle_string and the "+" '
-         'continuation of _read_colon_list) returns exactly what _write_longstring wrote, the writer never writes '
-         'nothing, keeps every section within LIMIT and never cuts between a backslash and its symbol (extended syntax: '
-         'all texts; plain syntax: texts without ", \\ and CR); VALUE_TYPE_ORDER/FILE_TYPE_ORDER indexes, the '
-         '"index|128" bytes, EntFlags, spawnflag powers, BinStrDict indexes, 16-bit indexes and separator-joined '
-         'lists read back as written; for every query sequence on a fresh lazy database the answers equal those of '
-         'the fully decoded database and the recursive base look-ups terminate. Constants, escape table and the two '
-         'decisive branches of _write_longstring are regenerated from the source on every run and kernel-checked; '
-         'the writer, the reader, the bit packings, BinStrDict and the lazy memo table are compared with the models '
-         'on generated inputs; the whole bundled database and generated FGDs are exported, parsed and exported '
-         'again under all custom_syntax/label_spawnflags variants, serialised to the binary format and back, and '
-         'queried lazily in random orders.',
-    note='The FGD grammar itself (entity headers, helpers, keyvalue/IO lines, choices, spawnflags, tags, snippets, '
-         '@resources) is NOT modelled: search only. Block decoding (ent_unserialise) is a parameter of the lazy model '
-         '(a function of the block bytes); lzma is outside the model. Accepted normalisations of the text form: I/O '
-         'types decay (VALUE_TO_IO_DECAY), empty BOOL default = "0", kv_order is compared as effective order, '
-         'newlines in choice/flag names become spaces, custom_syntax=False drops tags/resources/extension helpers/'
-         'aliasof and cannot represent ", \\ or CR in texts. Trusted: Coq kernel + vm_compute, translate/c16_fgd.py, '
-         'hand models Fmt/LongString.v, Fmt/FgdBin.v, SM/LazyDb.v (tied by correspondence), CPython.',
+    technique='Rocq proof (long-string writer/reader for all strings; token-level writers/parsers of keyvalue, spawnflag, choices, '
+              'I/O lines and @resources blocks for every split of long strings, joined to the character level; codec tables, bit '
+              'packings, whole binary records, blocks, file header and block positions; lazy database = eager database for all query '
+              'orders including what stored base names are replaced by) + fail-closed ast translator (constants, escape table, decisive '
+              'writer branches, I/O skeletons of the (un)serialisers, shape of get_ent/_parse_block/get_fgd) + vm_compute correspondence '
+              '(byte-exact for binary records and blocks of the shipped file; token-exact for text lines) + export/parse/export, binary and '
+              'lazy-loading oracles on the bundled database, generated FGDs and hand-built databases',
+    text='Theorems in Props/C16.v. Text: for every text, indent and line tail the reader (_handle_string and the "+" continuation of '
+         '_read_colon_list) returns exactly what _write_longstring wrote, the writer never writes nothing, keeps every section within LIMIT '
+         'and never cuts between a backslash and its symbol (extended syntax: all texts; plain syntax: texts without ", \\ and CR); at the '
+         'token level every keyvalue line (tags, readonly/report, display name, default present or not, description present or not), '
+         'every spawnflag item (generated [n] label removed again) and choices item, every input/output line and every @resources '
+         'block (undefined / defined-empty / non-empty) that the writers emit is parsed back to the same field values, for every split '
+         'of the long strings into "+" sections, and with display name and description produced by _write_longstring the parser returns '
+         'exactly the two texts; the single-colon and only-non-empty-resources writer variants are refuted. Binary: VALUE_TYPE_ORDER/'
+         'FILE_TYPE_ORDER indexes, "index|128" bytes, EntFlags, spawnflag powers, BinStrDict indexes, 16-bit indexes, separator-joined '
+         'lists; composed into ent_unserialise(ent_serialise(e) ++ rest) = (e, rest) for whole definitions and whole blocks with the '
+         'block dictionary, the file header and the block positions. Lazy: for every query sequence on a fresh database the answers '
+         '(definition AND what every stored base name was replaced by, alias chains across blocks included) equal those of the fully '
+         'loaded database; base look-ups terminate; the ent_map-look-up variant is refuted. The objects the theorems quantify over are '
+         'regenerated from the source on every run and kernel-checked as named instance obligations; all hand models are compared with the '
+         'implementation on generated and shipped data; the whole bundled database and generated FGDs are exported, parsed and exported '
+         'again, serialised to the binary format and back, and queried lazily in random orders.',
+    note='Still search only: entity headers (class kind, base()/aliasof(), helpers), snippets, @MaterialExclusion/@AutoVisgroup, the order of '
+         'lines inside an entity, and the character-level lexing of everything except quoted strings (bare words, punctuation, comments): '
+         'the line models work on the token stream of the real Tokenizer and are tied to KVDef.export/_parse etc. by token-exact '
+         'correspondence (also on mutated token lists), not by a translator-generated core. Value types, tags and numbers are abstract in '
+         'the line theorems; their premises are checked exhaustively on the real tables (data obligations). Block decoding in the lazy model is '
+         'a parameter (a function of the block bytes), lzma is outside the model, compute_ent_strings/build_blocks (how entities are '
+         'grouped into blocks) are not modelled. Accepted normalisations of the text form: I/O types decay (VALUE_TO_IO_DECAY), empty BOOL '
+         'default = "0", yes/no = 1/0, kv_order is compared as effective order, newlines in choice/flag names become spaces, '
+         'custom_syntax=False drops tags/resources/extension helpers/aliasof and cannot represent ", \\ or CR in texts. Quick tier runs the '
+         'bundled database under 2 of the 4 option sets (all 4 in the thorough tier and whenever a tie is broken). Trusted: Coq kernel + '
+         'vm_compute, translate/c16_fgd.py, hand models Fmt/LongString.v, Fmt/FgdBin.v, Fmt/FgdBinEnt.v, Fmt/FgdLine.v, SM/LazyDb.v (tied by '
+         'correspondence), the real Tokenizer as lexer of the line correspondences, CPython.',
 )
 
-IMPORTS = ['Coq.NArith.NArith', 'Coq.Lists.List', 'Coq.Strings.String', 'Coq.Bool.Bool', 'Coq.Arith.Arith', 'SV.Fmt.LongString', 'SV.Fmt.FgdBin', 'SV.SM.LazyDb',
+IMPORTS = ['Coq.NArith.NArith', 'Coq.Lists.List', 'Coq.Strings.String', 'Coq.Bool.Bool', 'Coq.Arith.Arith', 'SV.Fmt.LongString', 'SV.Fmt.FgdBin', 'SV.Fmt.FgdBinEnt', 'SV.Fmt.FgdLine', 'SV.Fmt.FgdBody', 'SV.SM.LazyDb',
            'SV.Gen.FgdConsts_gen', 'SV.Props.C16']
 PRE = '''Import ListNotations. Open Scope bool_scope. Open Scope N_scope. Open Scope list_scope.
 Fixpoint bad_idx {A} (f : A -> bool) (n : N) (l : list A) : list N :=
@@ -163,7 +176,7 @@ def shrink_text(pred: Callable[[str], bool], s: str, budget: int = 400) -> str:
 # =============================================================================================== correspondence
 def corr_writer_reader(ck: Ck) -> None:
     rng = ck.rng
-    n_long, n_short = ck.budget(22, 120), ck.budget(260, 1500)
+    n_long, n_short = ck.budget(8, 120), ck.budget(110, 1500)
     corpus = [(True, '\t', ''), (False, '\t', ''), (True, '\t', 'q' * 999 + '"zz'), (False, '\t\t', 'q' * 999 + '\nzz'),
               (True, '\t', 'q' * 998 + '\\' + 'z'), (True, '', 'a b ' * 300), (True, '\t', ('w' * 130 + '\n') * 9),
               (False, '\t', 'x' * 1001), (True, '\t', 'x' * 1000), (True, '\t', ' ' + 'y' * 1500)]
@@ -200,26 +213,24 @@ def corr_writer_reader(ck: Ck) -> None:
             coq_bool(ext), coq_str(indent), coq_str(text), coq_str(out), coq_str(tail),
             'None' if back is None else ('Some [1114112]%N' if back == text else f'Some {coq_str(back)}'))
             for ext, indent, text, out, tail, back in part)
+        # one pass per case: 1 = writer disagrees, 2 = reader disagrees (exact agreement, except that when the
+        # implementation raises the model may have stopped early: 4 = such a case, counted, not compared)
         vals = ck.coq_eval(IMPORTS, [
-            'bad_idx (fun c : (bool * list N) * (list N * list N) * (list N * option (list N)) => '
+            'map (fun c : (bool * list N) * (list N * list N) * (list N * option (list N)) => '
             'let \'((ext, ind), (text, out), (tail, back)) := c in '
-            'nlist_eqb (write_longstring esc_pairs esc_excluded gen_cfg ext ind text) out) 0 cases',
-            # reader: exact agreement, except that when the implementation raises the model may have stopped early
-            'bad_idx (fun c : (bool * list N) * (list N * list N) * (list N * option (list N)) => '
-            'let \'((ext, ind), (text, out), (tail, back)) := c in '
-            'match out, back with [], _ => true | _, Some bk => opt_eqb (read_joined esc_pairs (out ++ tail)) '
-            '(Some (if nlist_eqb bk [1114112] then text else bk)) | _, None => true end) 0 cases',
-            'bad_idx (fun c : (bool * list N) * (list N * list N) * (list N * option (list N)) => '
-            'let \'((ext, ind), (text, out), (tail, back)) := c in '
-            'match out, back with [], _ => true | _, Some _ => true | _, None => match read_joined esc_pairs (out ++ tail) with None => true | Some _ => false end end) 0 cases',
+            '(if nlist_eqb (write_longstring esc_pairs esc_excluded gen_cfg ext ind text) out then 0 else 1) + '
+            'match out with [] => 0 | _ => let r := read_joined esc_pairs (out ++ tail) in match back with '
+            '| Some bk => if opt_eqb r (Some (if nlist_eqb bk [1114112] then text else bk)) then 0 else 2 '
+            '| None => match r with None => 0 | Some _ => 4 end end end) cases',
         ], name='longstring', preamble=PRE + f'Definition cases := {lit}.\n', timeout=900)
         if vals is None:
             ck.obligation('correspondence:write_longstring', False, 'model could not be evaluated')
             ck.tie_broken.append('correspondence _write_longstring: model evaluation failed')
             return
-        bad_w += [lo + i for i in parse_coq_N_list(vals[0])]
-        bad_r += [lo + i for i in parse_coq_N_list(vals[1])]
-        relaxed += len(parse_coq_N_list(vals[2]))
+        codes = parse_coq_N_list(vals[0])
+        bad_w += [lo + i for i, c in enumerate(codes) if c & 1]
+        bad_r += [lo + i for i, c in enumerate(codes) if c & 2]
+        relaxed += sum(1 for c in codes if c & 4)
         lo = hi
     ck.obligation('correspondence:write_longstring', not bad_w,
                   f'{len(rows)} texts (around multiples of LIMIT, long runs without spaces, escapes at the cut): '
@@ -332,7 +343,7 @@ def corr_strdict(ck: Ck) -> None:
     from srctools import _engine_db as E
     rng = ck.rng
     rows = []
-    for _ in range(ck.budget(120, 400)):
+    for _ in range(ck.budget(60, 400)):
         nb = rng.choice([0, 1, 3, 8, E.SHARED_STRINGS, E.SHARED_STRINGS])
         base_set = rng.sample(range(1000, 1000 + 2 * max(nb, 4)), nb)
         own_set = rng.sample(range(5000, 5040), rng.randint(0, 12))
@@ -393,6 +404,744 @@ def corr_strdict(ck: Ck) -> None:
         ck.extra['strdict_disagreement'] = {'base_n': len(b), 'own': o, 'string': s, 'impl_index': idx, 'impl_decoded': dec}
 
 
+# ----------------------------------------------------------------------------------------------- text lines
+LINE_PRE = """
+Definition upperN (s : list N) : list N := map (fun c => if (97 <=? c) && (c <=? 122) then c - 32 else c) s.
+Fixpoint lstrip_tagc (s : list N) : list N := match s with c :: r => if (c =? 33) || (c =? 45) || (c =? 43) then lstrip_tagc r else s | [] => [] end.
+Fixpoint nodup_s (l : list (list N)) : bool := match l with [] => true | x :: r => negb (existsb (str_eqb x) r) && nodup_s r end.
+Definition tag_norm (s : list N) : list N := upperN s.
+Definition tags_valid (l : list (list N)) : bool := nodup_s (map (fun t => upperN (lstrip_tagc t)) l).
+Fixpoint sassoc {V} (k : list N) (l : list (list N * V)) : option V :=
+  match l with [] => None | (x, v) :: r => if str_eqb x k then Some v else sassoc k r end.
+Definition flat {V} (o : option (option V)) : option V := match o with Some x => x | None => None end.
+Fixpoint str_leb (a b : list N) : bool :=
+  match a, b with [], _ => true | _, [] => false | x :: a', y :: b' => if x <? y then true else if y <? x then false else str_leb a' b' end.
+Fixpoint ins_s (x : list N) (l : list (list N)) := match l with [] => [x] | y :: r => if str_leb x y then x :: l else y :: ins_s x r end.
+Definition sort_s (l : list (list N)) := fold_right ins_s [] l.
+Definition tags_eqb (a b : list (list N)) : bool := list_eqb str_eqb (sort_s a) (sort_s b).
+Definition secs_eqb (a b : list (list N)) : bool := list_eqb str_eqb a b.
+Definition pow2 (n : N) : bool := negb (n =? 0) && (N.land n (n - 1) =? 0).
+Definition fitem_eqb (a b : N * list (list N) * bool * list (list N)) : bool :=
+  let '(v, n, d, t) := a in let '(v', n', d', t') := b in (v =? v') && secs_eqb n n' && Bool.eqb d d' && tags_eqb t t'.
+Definition citem_eqb (a b : list N * list (list N) * list (list N)) : bool :=
+  let '(v, n, t) := a in let '(v', n', t') := b in str_eqb v v' && secs_eqb n n' && tags_eqb t t'.
+Definition vlist_eqb (a b : vlist) : bool :=
+  match a, b with NoList, NoList => true | Flags x, Flags y => list_eqb fitem_eqb x y | Choices x, Choices y => list_eqb citem_eqb x y | _, _ => false end.
+Definition kvl_eqb (a b : kvline N) : bool :=
+  str_eqb (l_name N a) (l_name N b) && tags_eqb (l_tags N a) (l_tags N b) && (l_type N a =? l_type N b) && Bool.eqb (l_ro N a) (l_ro N b)
+  && Bool.eqb (l_report N a) (l_report N b) && secs_eqb (l_disp N a) (l_disp N b) && str_eqb (l_default N a) (l_default N b)
+  && secs_eqb (l_desc N a) (l_desc N b) && vlist_eqb (l_list N a) (l_list N b).
+Definition iol_eqb (a b : ioline N) : bool :=
+  str_eqb (o_name N a) (o_name N b) && tags_eqb (o_tags N a) (o_tags N b) && (o_type N a =? o_type N b) && secs_eqb (o_desc N a) (o_desc N b).
+Definition ritem_eqb (a b : N * list N * list (list N)) : bool :=
+  let '(t, f, g) := a in let '(t', f', g') := b in (t =? t') && str_eqb f f' && tags_eqb g g'.
+Fixpoint tok_eqb (a b : tok) : bool :=
+  match a, b with TStr x, TStr y | TParen x, TParen y => str_eqb x y | TColon, TColon | TEq, TEq | TPlus, TPlus | TNl, TNl
+  | TBrOpen, TBrOpen | TBrClose, TBrClose | TComma, TComma | TOther, TOther => true | _, _ => false end.
+Definition vt_text (v : N) : list N := nth (N.to_nat v) vt_texts [].
+Definition vt_lookup (s : list N) : option (bool * N) := flat (sassoc s vt_tab).
+Definition io_text (v : N) : list N := nth (N.to_nat v) io_texts [].
+Definition io_lookup (s : list N) : option N := flat (sassoc s io_tab).
+Definition rt_text (v : N) : list N := nth (N.to_nat v) rt_texts [].
+Definition rt_lookup (s : list N) : option N := flat (sassoc s rt_tab).
+Definition decf (n : N) : list N := match find (fun p => fst p =? n) dec_tab with Some p => snd p | None => [] end.
+Definition undec (s : list N) : option N := flat (sassoc s undec_tab).
+Definition is_bool (v : N) := v =? vt_bool.  Definition is_flags (v : N) := v =? vt_flags.  Definition is_choices (v : N) := v =? vt_choices.
+Definition KT (label custom : bool) (k : kvline N) := kv_toks N vt_text is_bool is_flags decf gen_line_cfg label custom k.
+Definition KP (name : list N) (ts : list tok) := kv_parse tag_norm tags_valid N vt_lookup is_bool is_flags is_choices decf undec pow2 name ts.
+Definition IT (custom : bool) (o : ioline N) := io_toks N io_text custom o.
+Definition IP (ts : list tok) := io_parse tag_norm tags_valid N io_lookup ts.
+Definition RT (res : option (list (N * list N * list (list N)))) := res_toks gen_line_cfg N rt_text true res.
+Definition RR (ts : list tok) := res_read tag_norm tags_valid N rt_lookup ts.
+Definition BT (label custom : bool) (items : list (nat * item N)) (res : option (list (N * list N * list (list N)))) :=
+  body_toks N vt_text is_bool is_flags io_text decf gen_line_cfg N rt_text label custom items res.
+Definition BR (ts : list tok) := body_read tag_norm tags_valid N vt_lookup is_bool is_flags is_choices io_lookup decf undec pow2 N rt_lookup ts.
+Definition res_eqb (a b : option (list (N * list N * list (list N)))) : bool :=
+  match a, b with None, None => true | Some x, Some y => list_eqb ritem_eqb x y | _, _ => false end.
+Definition body_eqb (a b : body N N) : bool :=
+  list_eqb kvl_eqb (b_kvs N N a) (b_kvs N N b) && list_eqb iol_eqb (b_ins N N a) (b_ins N N b)
+  && list_eqb iol_eqb (b_outs N N a) (b_outs N N b) && res_eqb (b_res N N a) (b_res N N b).
+(* writer cases: 0 = agree *)
+Definition wcase {X} (f : X -> list tok) (c : X * list tok) : N := if list_eqb tok_eqb (f (fst c)) (snd c) then 0 else 1.
+(* parser cases: expected None = the implementation raises; Some (value, number of tokens left) *)
+Definition pcase {X} (eqb : X -> X -> bool) (got : option (X * list tok)) (want : option (X * N)) : N :=
+  match got, want with
+  | None, None => 0
+  | Some (x, r), Some (y, n) => if eqb x y && (N.of_nat (List.length r) =? n) then 0 else 1
+  | Some _, None => 2
+  | None, Some _ => 3
+  end.
+"""
+
+
+_SDEFS: dict[str, str] = {}      # long strings of the line correspondence, defined once in the Coq preamble
+_SDEF_LINES: list[str] = []
+
+
+def coq_s(x: str) -> str:
+    """A string as `list N`; strings of 24+ characters are defined once (`sK`) and referred to by name."""
+    if len(x) < 24:
+        return '[' + ';'.join(str(ord(c)) for c in x) + ']'
+    if x not in _SDEFS:
+        _SDEFS[x] = f's{len(_SDEFS)}'
+        _SDEF_LINES.append('Definition %s : list N := [%s].' % (_SDEFS[x], ';'.join(str(ord(c)) for c in x)))
+    return _SDEFS[x]
+
+
+def coq_s_joined(whole: str, secs: list[str]) -> None:
+    """Register a long text as the concatenation of its (already registered) sections."""
+    if len(secs) > 1 and whole not in _SDEFS and ''.join(secs) == whole:
+        _SDEFS[whole] = f's{len(_SDEFS)}'
+        _SDEF_LINES.append('Definition %s : list N := %s.' % (_SDEFS[whole], ' ++ '.join(coq_s(x) for x in secs)))
+
+
+def coq_tok(tok: Any, val: str) -> str:
+    from srctools.tokenizer import Token as T
+    simple = {T.COLON: 'TColon', T.EQUALS: 'TEq', T.PLUS: 'TPlus', T.NEWLINE: 'TNl', T.BRACK_OPEN: 'TBrOpen', T.BRACK_CLOSE: 'TBrClose',
+              T.COMMA: 'TComma'}
+    if tok is T.STRING:
+        return 'TStr ' + coq_s(val)
+    if tok is T.PAREN_ARGS:
+        return 'TParen ' + coq_s(val)
+    return simple.get(tok, 'TOther')
+
+
+def fgd_tokens(text: str) -> list[tuple[Any, str]]:
+    import srctools.fgd as F
+    from srctools.tokenizer import Token as T, Tokenizer
+    tok = Tokenizer(text, 'c16', error=F.FGDParseError, string_bracket=False, colon_operator=True, plus_operator=True)
+    out = []
+    while True:
+        t, v = tok()
+        if t is T.EOF:
+            return out
+        out.append((t, v))
+
+
+def text_sections(text: str, custom: bool, indent: str = '\t') -> list[str]:
+    """The sections _write_longstring splits `text` into, as the tokenizer reads them back."""
+    from srctools.tokenizer import Token as T
+    secs = [v for t, v in fgd_tokens(impl_write(custom, text, indent) + '\n') if t is T.STRING]
+    for x in secs:
+        coq_s(x)
+    coq_s_joined(text, secs)
+    return secs
+
+
+class LineTables:
+    """The abstract parameters of Fmt/FgdLine.v tabulated from the implementation's own tables / functions."""
+
+    def __init__(self) -> None:
+        from srctools.fgd import RESTYPE_TO_NAME, VALUE_TO_IO_DECAY, ValueTypes
+        self.vts = list(ValueTypes)
+        self.vt_index = {v: i for i, v in enumerate(self.vts)}
+        self.rts = list(RESTYPE_TO_NAME)
+        self.rt_index = {v: i for i, v in enumerate(self.rts)}
+        self.raw: set[str] = set()        # every short STRING / PAREN value of every token stream
+        self.ints: set[int] = set()
+        self.io_text = ['bool' if v is ValueTypes.BOOL else VALUE_TO_IO_DECAY[v].value for v in self.vts]
+
+    def note(self, toks: list[tuple[Any, str]]) -> None:
+        for _, v in toks:
+            if v is not None and len(v) <= 40:
+                self.raw.add(v)
+
+    def vt_lookup(self, raw: str) -> Optional[tuple[bool, int]]:
+        from srctools.fgd import VALUE_TYPE_LOOKUP
+        r = raw.strip()
+        star = r.startswith('*')
+        if star:
+            r = r[1:]
+        v = VALUE_TYPE_LOOKUP.get(r.casefold())
+        return None if v is None else (star, self.vt_index[v])
+
+    def io_lookup(self, raw: str) -> Optional[int]:
+        from srctools.fgd import VALUE_TYPE_LOOKUP, ValueTypes
+        r = raw.strip()
+        v = ValueTypes.EHANDLE if r == 'ehandle' else VALUE_TYPE_LOOKUP.get(r.casefold())
+        return None if v is None else self.vt_index[v]
+
+    def rt_lookup(self, raw: str) -> Optional[int]:
+        from srctools.fgd import RESTYPE_BY_NAME
+        v = RESTYPE_BY_NAME.get(raw.casefold())
+        return None if v is None or v not in self.rt_index else self.rt_index[v]
+
+    @staticmethod
+    def undec(raw: str) -> Optional[int]:
+        try:
+            n = int(raw)
+        except ValueError:
+            return None
+        return n if 0 <= n < 2 ** 40 else None
+
+    def preamble(self) -> str:
+        from srctools.fgd import RESTYPE_TO_NAME, ValueTypes
+        opt = lambda x, f: 'None' if x is None else 'Some ' + f(x)   # noqa: E731
+        raws = sorted(self.raw)
+        lines = [
+            'Definition vt_texts : list (list N) := %s.' % coq_list(coq_s(v.value) for v in self.vts),
+            'Definition io_texts : list (list N) := %s.' % coq_list(coq_s(x) for x in self.io_text),
+            'Definition rt_texts : list (list N) := %s.' % coq_list(coq_s(RESTYPE_TO_NAME[v]) for v in self.rts),
+            'Definition vt_tab : list (list N * option (bool * N)) := %s.' % coq_list(
+                '(%s, %s)' % (coq_s(r), opt(self.vt_lookup(r), lambda p: '(%s, %d)' % (coq_bool(p[0]), p[1]))) for r in raws),
+            'Definition io_tab : list (list N * option N) := %s.' % coq_list('(%s, %s)' % (coq_s(r), opt(self.io_lookup(r), str)) for r in raws),
+            'Definition rt_tab : list (list N * option N) := %s.' % coq_list('(%s, %s)' % (coq_s(r), opt(self.rt_lookup(r), str)) for r in raws),
+            'Definition undec_tab : list (list N * option N) := %s.' % coq_list('(%s, %s)' % (coq_s(r), opt(self.undec(r), str)) for r in raws),
+            'Definition dec_tab : list (N * list N) := %s.' % coq_list('(%d, %s)' % (n, coq_s(str(n))) for n in sorted(self.ints)),
+            'Definition vt_bool : N := %d. Definition vt_flags : N := %d. Definition vt_choices : N := %d.' % (
+                self.vt_index[ValueTypes.BOOL], self.vt_index[ValueTypes.SPAWNFLAGS], self.vt_index[ValueTypes.CHOICES]),
+        ]
+        return '\n'.join(_SDEF_LINES) + '\n' + '\n'.join(lines) + '\n' + LINE_PRE
+
+
+def coq_secs(secs: Iterable[str]) -> str:
+    return coq_list(coq_s(x) for x in secs)
+
+
+def kv_line_literal(lt: LineTables, kv: Any, tags: Iterable[str], secs: Callable[[str], list[str]], choice_secs: Callable[[str], list[str]],
+                    label_secs: Optional[Callable[[int, str], list[str]]] = None) -> str:
+    """A KVDef as a Coq `kvline N`.  `secs` gives the sections of a long string (writer side) or [text] (parser side)."""
+    from srctools.fgd import ValueTypes
+    if kv.type is ValueTypes.SPAWNFLAGS:
+        items = []
+        for v, name, d, tg in (kv.val_list or []):
+            lt.ints.add(v)
+            items.append('(%d, %s, %s, %s)' % (v, coq_secs(secs(name.replace('\n', ' ')) if label_secs is None else label_secs(v, name.replace('\n', ' '))),
+                                               coq_bool(bool(d)), coq_secs(sorted(tg))))
+        vl = 'Flags ' + coq_list(items)
+    elif kv.type is ValueTypes.CHOICES:
+        vl = 'Choices ' + coq_list('(%s, %s, %s)' % (coq_s(v), coq_secs(choice_secs(name.replace('\n', ' '))), coq_secs(sorted(tg)))
+                                   for v, name, tg in (kv.val_list or []))
+    else:
+        vl = 'NoList'
+    return 'mk_kvl N %s %s %d %s %s %s %s %s (%s)' % (coq_s(kv.name), coq_secs(sorted(tags)), lt.vt_index[kv.type], coq_bool(kv.readonly),
+                                                     coq_bool(kv.reportable), coq_secs(secs(kv.disp_name)), coq_s(kv.default),
+                                                     coq_secs(secs(kv.desc)), vl)
+
+
+def gen_line_text(rng: random.Random, kind: str, safe: bool) -> str:
+    """Texts for the line correspondence: `long` = just over one or two LIMITs (2-3 sections), and rare (the Coq
+    literals are what costs time)."""
+    if kind != 'long':
+        return gen_text(rng, kind, safe=safe)
+    if rng.random() < 0.7:
+        return gen_text(rng, 'short', safe=safe)
+    n = rng.choice([1003, 1040, 2030])
+    words = []
+    while sum(map(len, words)) + len(words) < n:
+        words.append(rng.choice(WORDS) if rng.random() < 0.93 else rng.choice(SPECIAL))
+    s = ' '.join(words) if rng.random() < 0.7 else ''.join(w for w in words if w != ' ')
+    return s.replace('"', "'").replace('\\', '/').replace('\r', ' ') if safe else s
+
+
+def gen_line_kv(rng: random.Random, plain: bool) -> tuple[Any, frozenset]:
+    from srctools.fgd import KVDef, ValueTypes
+    txt = lambda *kinds_: gen_line_text(rng, rng.choice(kinds_), plain)   # noqa: E731
+    typ = rng.choice(list(ValueTypes)) if rng.random() < 0.6 else rng.choice([ValueTypes.SPAWNFLAGS, ValueTypes.CHOICES, ValueTypes.BOOL, ValueTypes.STRING])
+    name = rng.choice(KV_NAMES)
+    tg = lambda: frozenset() if plain else rng.choice(TAGSETS)   # noqa: E731
+    if typ is ValueTypes.SPAWNFLAGS:
+        vl: Any = [(1 << p, txt('short', 'short', 'special', 'empty', 'long').replace('\n', ' ').strip(), rng.random() < 0.5, tg())
+                   for p in sorted(rng.sample(range(0, 24), rng.randint(0, 4)))]
+        kv = KVDef(name, typ, name, '', '', vl or None)
+    elif typ is ValueTypes.CHOICES:
+        vals = rng.sample(['0', '1', '2', '-1', '1.5', 'abc', 'on', 'models/x.mdl', '16'], rng.randint(0, 4))
+        vl = [(v, gen_line_text(rng, rng.choice(['short', 'short', 'empty', 'long']), True).replace('\n', ' '), tg()) for v in vals]
+        kv = KVDef(name, typ, txt('short', 'empty', 'special'), rng.choice(DEFAULTS), txt('empty', 'short', 'long'), vl or None)
+    else:
+        kv = KVDef(name, typ, txt('short', 'short', 'empty', 'special', 'long'), rng.choice(DEFAULTS + (['yes', 'No'] if typ is ValueTypes.BOOL else [])),
+                   txt('empty', 'empty', 'short', 'special', 'long', 'long'))
+    kv.readonly, kv.reportable = rng.random() < 0.25, rng.random() < 0.25
+    return kv, (frozenset() if plain else rng.choice(TAGSETS))
+
+
+def mutate_tokens(rng: random.Random, toks: list[tuple[Any, str]]) -> list[tuple[Any, str]]:
+    from srctools.tokenizer import Token as T
+    toks = list(toks)
+    for _ in range(rng.choice([1, 1, 2])):
+        i = rng.randrange(len(toks) + 1)
+        r = rng.random()
+        if r < 0.3 and toks:
+            del toks[min(i, len(toks) - 1)]
+        elif r < 0.45 and len(toks) > 1:
+            j = min(i, len(toks) - 2)
+            toks[j], toks[j + 1] = toks[j + 1], toks[j]
+        elif r < 0.55 and toks:
+            toks.insert(i, toks[min(i, len(toks) - 1)])
+        else:
+            toks.insert(i, rng.choice([(T.COLON, ':'), (T.NEWLINE, '\n'), (T.PLUS, '+'), (T.EQUALS, '='), (T.STRING, 'x'), (T.STRING, 'readonly'),
+                                       (T.STRING, 'Report'), (T.STRING, '1'), (T.STRING, '3'), (T.BRACK_OPEN, '['), (T.BRACK_CLOSE, ']'), (T.COMMA, ','),
+                                       (T.PAREN_ARGS, ' *Integer '), (T.PAREN_ARGS, 'bool'), (T.STRING, '[4] lab'), (T.STRING, 'TF2')]))
+    return toks
+
+
+def impl_parse_tokens(which: str, toks: list[tuple[Any, str]]) -> Any:
+    """Run the real KVDef._parse / IODef._parse on a token list; returns (object, tags, tokens left) or None when it raises."""
+    import warnings
+    import srctools.fgd as F
+    from srctools.tokenizer import IterTokenizer, Token as T
+    tok = IterTokenizer(iter(toks), 'c16', F.FGDParseError)
+    fgd = F.FGD()
+    try:
+        with warnings.catch_warnings():
+            warnings.simplefilter('ignore')
+            if which == 'kv':
+                t0, name = tok()
+                if t0 is not T.STRING:
+                    return 'skip'
+                tags, obj = F.KVDef._parse(fgd, name, tok, 'c16')
+            else:
+                tags, obj = F.IODef._parse(fgd, tok)
+    except Exception:   # noqa: BLE001
+        return None
+    left = 0
+    while tok()[0] is not T.EOF:
+        left += 1
+    return obj, tags, left
+
+
+def line_data_obligations(ck: Ck) -> None:
+    """Premises of the line theorems of Props/C16.v that are facts about the implementation's tables (exhaustive)."""
+    import srctools.fgd as F
+    lt = LineTables()
+    bad = [v.name for v in lt.vts if lt.vt_lookup(v.value) != (False, lt.vt_index[v])]
+    ck.obligation('data:value_type_names_look_up_to_themselves', not bad,
+                  f'{len(lt.vts)} ValueTypes: strip / leading * / casefold / VALUE_TYPE_LOOKUP of `.value` gives the member, not reportable '
+                  f'(premise vt_lookup (vt_text v) = Some (false, v)); failing: {bad}')
+    bad = [v.name for i, v in enumerate(lt.vts) if lt.io_lookup(lt.io_text[i]) != lt.vt_index[F.VALUE_TO_IO_DECAY[v]]]
+    ck.obligation('data:io_type_names_look_up_to_the_decayed_type', not bad,
+                  f'what IODef.export writes for each of the {len(lt.vts)} types is read back as VALUE_TO_IO_DECAY[type] '
+                  f'(premise io_lookup (io_text v) = Some (io_decay v)); failing: {bad}')
+    bad = [t.name for t in lt.rts if lt.rt_lookup(F.RESTYPE_TO_NAME[t]) != lt.rt_index[t]]
+    ck.obligation('data:resource_type_names_look_up_to_themselves', not bad,
+                  f'{len(lt.rts)} resource types: RESTYPE_BY_NAME[RESTYPE_TO_NAME[t].casefold()] is t (premise rt_lookup (rt_text t) = Some t); failing: {bad}')
+    bad_t = []
+    for ts in TAGSETS:
+        try:
+            ok = F.validate_tags([t.casefold() for t in ts]) == ts and all(t.casefold().upper() == t for t in ts)
+        except ValueError:
+            ok = False
+        if not ok:
+            bad_t.append(sorted(ts))
+    ck.obligation('data:generated_tags_are_in_normal_form', not bad_t,
+                  f'{len(TAGSETS)} tag sets of the generators: upper-cased, distinct, accepted by validate_tags (premise tags_wf); failing: {bad_t}')
+    bad_n = [n for n in [0, 1, 2, 4, 1 << 23, 1 << 30, 12345] if int(str(n)) != n]
+    ck.obligation('data:int_of_str_of_int', not bad_n, 'premise undec (dec n) = Some n (spot check)')
+
+
+def corr_lines(ck: Ck) -> None:
+    """Fmt/FgdLine.v against the implementation.  Writers: the tokens the real Tokenizer reads from what KVDef.export /
+    IODef.export / EntityDef.export (@resources) write == kv_toks / io_toks / res_toks.  Readers: KVDef._parse / IODef._parse /
+    the @resources loop of EntityDef.parse on those token lists and on mutated ones (a token deleted, doubled, swapped,
+    inserted) == kv_parse / io_parse / res_read, including how many tokens are left."""
+    import srctools.fgd as F
+    from srctools.const import FileType
+    from srctools.fgd import EntityDef, EntityTypes, IODef, KVDef, Resource, ValueTypes
+    from srctools.tokenizer import IterTokenizer, Token as T
+    rng = ck.rng
+    lt = LineTables()
+    _SDEFS.clear()
+    _SDEF_LINES.clear()
+    w_kv, p_kv, w_io, p_io, w_res, p_res = [], [], [], [], [], []
+    one = lambda x: [x]   # noqa: E731
+    for i in range(ck.budget(54, 600)):
+        plain = i % 3 == 2
+        custom = not plain
+        label = rng.random() < 0.5
+        kv, tags = gen_line_kv(rng, plain)
+        buf = io.StringIO()
+        kv.export(buf, tags, label, custom)
+        toks = fgd_tokens(buf.getvalue())
+        lt.note(toks)
+        secs = lambda x, custom=custom: text_sections(x, custom)   # noqa: E731
+        lit = kv_line_literal(lt, kv, tags, secs, lambda x: text_sections(x, False, '\t\t'),
+                              lambda v, n, custom=custom, label=label: text_sections(n, custom, '\t\t'))
+        # spawnflag names: the model adds the label itself, but the split of the LABELLED text is what the writer chose
+        if kv.type is ValueTypes.SPAWNFLAGS and label:
+            def lsecs(v: int, n: str, custom=custom) -> list[str]:
+                s_ = text_sections(f'[{v}] {n}', custom, '\t\t')
+                pre = f'[{v}] '
+                return [s_[0][len(pre):]] + s_[1:] if s_ and s_[0].startswith(pre) else ['<label split>']
+            lit = kv_line_literal(lt, kv, tags, secs, lambda x: text_sections(x, False, '\t\t'), lsecs)
+        w_kv.append(('(%s, %s, %s)' % (coq_bool(label), coq_bool(custom), lit), toks))
+        ck.count('corr_lines_kv')
+        ck.hist('line_kv_type', 'flags' if kv.type is ValueTypes.SPAWNFLAGS else 'choices' if kv.type is ValueTypes.CHOICES else 'bool' if kv.type is ValueTypes.BOOL else 'other')
+        if len(toks) > 6:
+            ck.seen(('linekv', buf.getvalue()))
+        for mut in (False, True, True):
+            t2 = mutate_tokens(rng, toks) if mut else toks
+            lt.note(t2)
+            r = impl_parse_tokens('kv', t2)
+            if r == 'skip':
+                continue
+            ck.hist('line_kv_parse', ('mutated:' if mut else 'written:') + ('raises' if r is None else 'ok'))
+            if r is None:
+                want = 'None'
+            else:
+                obj, tg, left = r
+                if not isinstance(obj.type, ValueTypes):
+                    continue
+                want = 'Some (%s, %d)' % (kv_line_literal(lt, obj, tg, one, one), left)
+            p_kv.append((coq_s(t2[0][1]), t2[1:], want))
+            ck.count('corr_lines_kv_parse')
+    for i in range(ck.budget(27, 300)):
+        plain = i % 3 == 2
+        typ = rng.choice(list(ValueTypes))
+        if typ.has_list:
+            typ = ValueTypes.VOID
+        o = IODef(rng.choice(['Fire', 'Kill', 'SetValue', 'OnUser1']), typ, gen_line_text(rng, rng.choice(['empty', 'short', 'special', 'long']), plain))
+        tags = frozenset() if plain else rng.choice(TAGSETS)
+        buf = io.StringIO()
+        o.export(buf, 'input', tags, not plain)
+        toks = fgd_tokens(buf.getvalue())[1:]     # after the `input` keyword
+        lt.note(toks)
+        mk = lambda o_, tg, secs: 'mk_iol N %s %s %d %s' % (coq_s(o_.name), coq_secs(sorted(tg)), lt.vt_index[o_.type], coq_secs(secs(o_.desc)))   # noqa: E731
+        w_io.append(('(%s, %s)' % (coq_bool(not plain), mk(o, tags, lambda x, plain=plain: text_sections(x, not plain))), toks))
+        ck.count('corr_lines_io')
+        for mut in (False, True):
+            t2 = mutate_tokens(rng, toks) if mut else toks
+            lt.note(t2)
+            r = impl_parse_tokens('io', t2)
+            want = 'None' if r is None or not isinstance(r[0].type, ValueTypes) else 'Some (%s, %d)' % (mk(r[0], r[1], one), r[2])
+            p_io.append((t2, want))
+            ck.count('corr_lines_io_parse')
+    restypes = list(F.RESTYPE_TO_NAME)
+    for i in range(ck.budget(20, 200)):
+        e = EntityDef(EntityTypes.POINT, 'c16_ent')
+        kind = i % 4
+        if kind == 0:
+            res: Any = None
+        elif kind == 1:
+            res = []
+        else:
+            res = [Resource(rng.choice(['models/a.mdl', 'Weapon.Fire', 'materials/x y.vmt', 'a\\b.vmt', 'scripts/"q".nut']), rng.choice(restypes),
+                            rng.choice(TAGSETS)) for _ in range(rng.randint(1, 3))]
+        if res is not None:
+            e.resources = res
+        buf = io.StringIO()
+        e.export(buf, True, True)
+        toks = fgd_tokens(buf.getvalue())
+        body = toks[6:]       # after `@PointClass = name NEWLINE [ NEWLINE`
+        lt.note(body)
+        rlit = lambda rs: 'None' if rs is None else 'Some ' + coq_list('(%d, %s, %s)' % (lt.rt_index[r.type], coq_s(r.filename), coq_secs(sorted(r.tags))) for r in rs)   # noqa: E731
+        w_res.append((rlit(res), body))
+        ck.count('corr_lines_resources')
+        ck.hist('line_resources', ['undefined', 'empty', 'some', 'some'][kind])
+        for mut in (False, True):
+            b2 = list(body)
+            if mut and len(b2) > 3:
+                j = rng.randrange(len(b2) - 2)
+                if rng.random() < 0.5:
+                    b2.insert(j, (T.NEWLINE, '\n'))
+                elif b2[j][0] is T.NEWLINE:
+                    del b2[j]
+            lt.note(b2)
+            tk = IterTokenizer(iter(toks[:6] + b2), 'c16', F.FGDParseError)
+            fgd = F.FGD()
+            try:
+                tk()   # '@PointClass'
+                EntityDef.parse(fgd, tk, EntityTypes.POINT)
+                ent = fgd.entities['c16_ent']
+                got: Any = None if ent.resources == () else list(ent.resources)
+                want = 'Some (%s)' % rlit(got)
+            except Exception:   # noqa: BLE001
+                want = 'None'
+            p_res.append((b2, want))
+            ck.count('corr_lines_resources_parse')
+    # ---- whole entity bodies: several keyvalue lines (tagged variants of one key too), inputs, outputs, resources
+    w_body, p_body = [], []
+    iolit = lambda o_, tg, secs: 'mk_iol N %s %s %d %s' % (coq_s(o_.name), coq_secs(sorted(tg)), lt.vt_index[o_.type], coq_secs(secs(o_.desc)))   # noqa: E731
+    for i in range(ck.budget(12, 120)):
+        plain = i % 3 == 2
+        custom, label = not plain, rng.random() < 0.5
+        e = EntityDef(EntityTypes.POINT, 'c16_ent')
+        items = []
+        secs = lambda x, custom=custom: text_sections(x, custom)   # noqa: E731
+        for name in rng.sample(KV_NAMES, rng.randint(0, 4)):
+            for tags in ([frozenset()] if plain or rng.random() < 0.7 else rng.sample(TAGSETS, 2)):
+                kv, _ = gen_line_kv(rng, plain)
+                kv.name = name
+                if kv.type is ValueTypes.SPAWNFLAGS:
+                    kv.disp_name = name
+                e.keyvalues.setdefault(name.casefold(), {})[tags] = kv
+
+                def lsecs(v: int, n: str, custom=custom, label=label) -> list[str]:
+                    if not label:
+                        return text_sections(n, custom, '\t\t')
+                    s_ = text_sections(f'[{v}] {n}', custom, '\t\t')
+                    pre = f'[{v}] '
+                    return [s_[0][len(pre):]] + s_[1:] if s_ and s_[0].startswith(pre) else ['<label split>']
+                items.append('(0%%nat, IKv N (%s))' % kv_line_literal(lt, kv, tags, secs, lambda x: text_sections(x, False, '\t\t'), lsecs))
+            e.kv_order.append(name.casefold())
+        for cat, pre_, ctor in (('inputs', 'In', 'IIn'), ('outputs', 'On', 'IOut')):
+            first = True
+            for j in range(rng.choice([0, 1, 2])):
+                typ = rng.choice(list(ValueTypes))
+                if typ.has_list:
+                    typ = ValueTypes.VOID
+                o = IODef(f'{pre_}Fire{j}', typ, gen_line_text(rng, rng.choice(['empty', 'short', 'special']), plain))
+                tags = frozenset() if plain else rng.choice(TAGSETS)
+                getattr(e, cat)[o.name.casefold()] = {tags: o}
+                items.append('(%d%%nat, %s N (%s))' % (2 if first else 0, ctor, iolit(o, tags, secs)))
+                first = False
+        res = None if rng.random() < 0.3 else [Resource(rng.choice(['models/a.mdl', 'Weapon.Fire']), rng.choice(restypes), rng.choice(TAGSETS))
+                                               for _ in range(rng.randint(0, 2))]
+        if res is not None:
+            e.resources = res
+        buf = io.StringIO()
+        e.export(buf, label, custom)
+        toks = fgd_tokens(buf.getvalue())
+        body = toks[6:-1]          # after `@PointClass = name NEWLINE [ NEWLINE`, without the NEWLINE after the closing bracket
+        lt.note(body)
+        w_body.append(('(%s, %s, %s, %s)' % (coq_bool(label), coq_bool(custom), coq_list(items), rlit(res)), body))
+        ck.count('corr_lines_bodies')
+        ck.seen(('linebody', buf.getvalue()))
+        for mut in (False, True):
+            b2 = list(body)
+            if mut and len(b2) > 2:
+                b2.insert(rng.randrange(len(b2)), (T.NEWLINE, '\n'))
+            tk = IterTokenizer(iter(toks[:6] + b2), 'c16', F.FGDParseError)
+            fgd = F.FGD()
+            try:
+                tk()
+                EntityDef.parse(fgd, tk, EntityTypes.POINT)
+                ent = fgd.entities['c16_ent']
+                left = 0
+                while tk()[0] is not T.EOF:
+                    left += 1
+                kvl = [kv_line_literal(lt, kv, tg, one, one) for tm in ent.keyvalues.values() for tg, kv in tm.items()]
+                if any(not isinstance(kv.type, ValueTypes) for tm in ent.keyvalues.values() for kv in tm.values()):
+                    continue
+                want = 'Some (mk_body N N %s %s %s (%s), %d)' % (
+                    coq_list(kvl), coq_list(iolit(o_, tg, one) for tm in ent.inputs.values() for tg, o_ in tm.items()),
+                    coq_list(iolit(o_, tg, one) for tm in ent.outputs.values() for tg, o_ in tm.items()),
+                    rlit(None if ent.resources == () else list(ent.resources)), left)
+            except Exception:   # noqa: BLE001
+                want = 'None'
+            p_body.append((b2, want))
+            ck.count('corr_lines_bodies_parse')
+    tl = lambda ts: coq_list(coq_tok(t, v) for t, v in ts)   # noqa: E731
+    exprs = [
+        'map (wcase (fun c : bool * bool * kvline N => let \'(l, cu, k) := c in KT l cu k)) ' + coq_list('(%s, %s)' % (a, tl(ts)) for a, ts in w_kv),
+        'map (fun c : list N * list tok * option (kvline N * N) => let \'(n, ts, want) := c in pcase kvl_eqb (KP n ts) want) '
+        + coq_list('(%s, %s, %s)' % (n, tl(ts), w) for n, ts, w in p_kv),
+        'map (wcase (fun c : bool * ioline N => IT (fst c) (snd c))) ' + coq_list('(%s, %s)' % (a, tl(ts)) for a, ts in w_io),
+        'map (fun c : list tok * option (ioline N * N) => pcase iol_eqb (IP (fst c)) (snd c)) ' + coq_list('(%s, %s)' % (tl(ts), w) for ts, w in p_io),
+        'map (wcase (fun r => RT r ++ [TBrClose; TNl])) ' + coq_list('(%s, %s)' % (a, tl(ts)) for a, ts in w_res),
+        # the entity loop goes on after the block: compared when the model is left with NEWLINEs and the closing bracket
+        'map (fun c : list tok * option (option (list (N * list N * list (list N)))) => match RR (fst c), snd c with '
+        '| Some (r, rest), Some w => match skip_nl rest with [TBrClose] | [TBrClose; TNl] => '
+        'match r, w with None, None => 0 | Some a, Some b => if list_eqb ritem_eqb a b then 0 else 1 | _, _ => 1 end | _ => 4 end '
+        '| None, None => 0 | Some (_, rest), None => match skip_nl rest with [TBrClose] | [TBrClose; TNl] => 2 | _ => 4 end | None, Some _ => 3 end) '
+        + coq_list('(%s, %s)' % (tl(ts), w) for ts, w in p_res),
+        'map (wcase (fun c : bool * bool * list (nat * item N) * option (list (N * list N * list (list N))) => '
+        'let \'(l, cu, its, r) := c in BT l cu its r)) ' + coq_list('(%s, %s)' % (a, tl(ts)) for a, ts in w_body),
+        'map (fun c : list tok * option (body N N * N) => pcase body_eqb (BR (fst c)) (snd c)) ' + coq_list('(%s, %s)' % (tl(ts), w) for ts, w in p_body),
+    ]
+    vals = ck.coq_eval(IMPORTS, exprs, name='lines', preamble=PRE + lt.preamble(), timeout=900)
+    names = ['KVDef.export', 'KVDef._parse', 'IODef.export', 'IODef._parse', 'EntityDef.export @resources', 'EntityDef.parse @resources',
+             'EntityDef.export body', 'EntityDef.parse body']
+    if vals is None:
+        ck.obligation('correspondence:text_lines_writers', False, 'model could not be evaluated')
+        ck.tie_broken.append('correspondence text lines: model evaluation failed')
+        return
+    codes = [parse_coq_N_list(v) for v in vals]
+    data = [w_kv, p_kv, w_io, p_io, w_res, p_res, w_body, p_body]
+    bad = {nm: [i for i, c in enumerate(cs) if c not in (0, 4)] for nm, cs in zip(names, codes)}
+    relaxed = sum(1 for cs in codes for c in cs if c == 4)
+    for kind, idxs in (('writers', (0, 2, 4, 6)), ('readers', (1, 3, 5, 7))):
+        nbad = sum(len(bad[names[i]]) for i in idxs)
+        ck.obligation(f'correspondence:text_lines_{kind}', nbad == 0,
+                      ', '.join(f'{names[i]}: {len(codes[i])} cases, {len(bad[names[i]])} disagreements' for i in idxs)
+                      + (f'; {relaxed} @resources streams where the model stopped elsewhere than the entity loop (not compared)' if kind == 'readers' else '')
+                      + ' (token lists from the real Tokenizer; Fmt/FgdLine.v with the tables of the implementation)')
+        if nbad:
+            ck.tie_broken.append(f'correspondence text lines, {kind} (Fmt/FgdLine.v vs fgd.py)')
+            first = next(names[i] for i in idxs if bad[names[i]])
+            j = bad[first][0]
+            row = data[names.index(first)][j]
+            ck.extra[f'text_line_{kind}_disagreement'] = {'site': first, 'code': codes[names.index(first)][j], 'case': [str(x)[:600] for x in row]}
+
+
+# ----------------------------------------------------------------------------------------------- binary records
+def coq_qs(x: str) -> str:
+    return '"%s"%%string' % x
+
+
+def ent_literal(e: Any, sid: Callable[[str], int]) -> str:
+    """An EntityDef as a Coq `entdef N` (Fmt/FgdBinEnt.v); strings are numbered by `sid`.  What the binary format
+    does not carry is left out; a keyvalue/IO name with several tag variants cannot be written at all."""
+    from srctools.fgd import ValueTypes
+    kvs = []
+    for tm in e.keyvalues.values():
+        for kv in tm.values():
+            if kv.type is ValueTypes.SPAWNFLAGS:
+                fl = coq_list('(%d, %d, %s)' % (m, sid(n), coq_bool(bool(d))) for m, n, d, _ in (kv.val_list or []))
+                dflt = sid('')
+            else:
+                fl, dflt = '[]', sid(kv.default or '')
+            kvs.append('mk_kv %d %d %s %s %d %s' % (sid(kv.name), sid(kv.disp_name), coq_qs(kv.type.name), coq_bool(kv.readonly), dflt, fl))
+    ios = {}
+    for cat in ('inputs', 'outputs'):
+        ios[cat] = ['mk_io %d %s' % (sid(v.name), coq_qs(v.type.name)) for tm in getattr(e, cat).values() for v in tm.values()]
+    res = ['mk_res %d %s %s' % (sid(r.filename), coq_qs(r.type.name), coq_list(str(sid(t)) for t in r.tags)) for r in e.resources]
+    bases = [str(sid(b if isinstance(b, str) else b.classname)) for b in e.bases]
+    return 'mk_ent %s %s %s %s %s %s %s' % (coq_qs('TYPE_' + e.type.name), coq_bool(e.is_alias), coq_list(bases),
+                                            coq_list(kvs), coq_list(ios['inputs']), coq_list(ios['outputs']), coq_list(res))
+
+
+def gen_bin_ent(rng: random.Random, i: int) -> Any:
+    """An engine-style definition (untagged keyvalues/IO, no CHOICES): what ent_serialise accepts."""
+    from srctools.const import FileType
+    from srctools.fgd import EntityDef, EntityTypes, IODef, KVDef, Resource, ValueTypes
+    e = EntityDef(rng.choice(list(EntityTypes)), f'gen_{i}', is_alias=rng.random() < 0.2)
+    e.bases = rng.sample(['_CBaseEntity_', 'prop_static', 'Other'], rng.choice([1, 1, 2])) if rng.random() < 0.4 else []
+    for name in rng.sample(KV_NAMES, rng.randint(0, 6)):
+        typ = rng.choice([t for t in ValueTypes if t is not ValueTypes.CHOICES])
+        if typ is ValueTypes.SPAWNFLAGS:
+            vl = [(1 << p, f'flag {p}', rng.random() < 0.5, frozenset()) for p in sorted(rng.sample(range(0, 31), rng.randint(0, 6)))]
+            kv = KVDef(name, typ, name, '', '', vl)
+        else:
+            kv = KVDef(name, typ, rng.choice(['', 'Disp', name]), rng.choice(DEFAULTS), '', readonly=rng.random() < 0.3)
+        e.keyvalues[name.casefold()] = {frozenset(): kv}
+    for cat in ('inputs', 'outputs'):
+        for j in range(rng.randint(0, 3)):
+            getattr(e, cat)[f'io{j}'] = {frozenset(): IODef(f'Io{j}', rng.choice([t for t in ValueTypes if not t.has_list]))}
+    if rng.random() < 0.5:
+        e.resources = [Resource(f'res{j}', rng.choice(list(FileType)), rng.choice([frozenset(), frozenset({'A'}), frozenset({'A', 'B'})]))
+                       for j in range(rng.randint(1, 3))]
+    return e
+
+
+BIN_PRE = '''Definition ent_case (c : entdef N * list N * entdef N * (list N * N)) : bool :=
+  let '(lit, bytes, back, (canon, empty)) := c in
+  match g_ent_ser lit with Some b => nlist_eqb b bytes | None => false end
+  && match g_ent_unser canon empty bytes with Some (x, []) => entN_eqb x back | _ => false end.
+Definition block_case (own : list N) (empty : N) (c : list (entdef N) * list N) : bool :=
+  let '(lits, bytes) := c in
+  match g_block_unser (base_canon ++ own) empty (List.length lits) bytes with
+  | Some (xs, []) => list_eqb entN_eqb xs lits && match g_block_ser xs with Some b => nlist_eqb b bytes | None => false end
+  | _ => false end.
+'''
+
+
+def corr_binary_records(ck: Ck, data: bytes, tb: dict) -> None:
+    """Byte-exact: (1) generated definitions through the real ent_serialise / ent_unserialise with a table dictionary vs
+    ent_ser / ent_unser of Fmt/FgdBinEnt.v; (2) blocks of the shipped file: the model reads the block's bytes (after the
+    dictionary) to exactly the definitions the implementation reads, nothing left over, and writes them back to the same bytes."""
+    from srctools import _engine_db as E
+    rng = ck.rng
+    rows = []
+    for i in range(ck.budget(50, 600)):
+        e = gen_bin_ent(rng, i)
+        table: list[str] = ['']
+
+        def enc(s: str, table=table) -> bytes:
+            if s not in table:
+                table.append(s)
+            return E._fmt_16bit.pack(table.index(s))
+        b = io.BytesIO()
+        try:
+            E.ent_serialise(e, b, enc)
+        except Exception as ex:   # noqa: BLE001
+            ck.violation('binary-serialise-raises', f'ent_serialise(generated definition) raises {type(ex).__name__}: {ex}', {'kind': 'binary'})
+            continue
+        raw = b.getvalue()
+        b.seek(0)
+        e2 = E.ent_unserialise(b, e.classname, E._py_make_lookup(b, table))
+        sid = table.index
+        rows.append((ent_literal(e, sid), raw, ent_literal(e2, sid), len(table)))
+        ck.count('corr_binary_records')
+        ck.hist('bin_record_bytes', min(len(raw) // 20 * 20, 200))
+        if len(raw) > 12:
+            ck.seen(('binrec', raw))
+    exprs = ['bad_idx ent_case 0 ' + coq_list('(%s, %s, %s, (map N.of_nat (seq 0 %d), 0))' % (a, coq_N(raw), c, n) for a, raw, c, n in rows)]
+    # ---- blocks of the shipped file
+    db = fresh_db(data)
+    base = list(db.base_strings)
+    first_base: dict[str, int] = {}
+    for i, x in enumerate(base):
+        first_base.setdefault(x, i)
+    nblocks = len(db.unparsed)
+    block_of = {c: i for i, ids in enumerate(tb['blocks']) for c in ids}
+    with_alias = sorted({block_of[a] for a in tb['bases']})       # blocks holding definitions with stored base names
+    nsel = ck.budget(6, nblocks)
+    chosen = sorted(set(rng.sample(range(nblocks), min(nblocks, nsel))) | set(with_alias if nsel >= nblocks else with_alias[:3]))
+    brow = []
+    for bi in chosen:
+        classes, blob = db.unparsed[bi]
+        f = io.BytesIO(blob)
+        inv_list, from_dict = E.BinStrDict.unserialise(f, base)
+        start = f.tell()
+        ents = [E.ent_unserialise(f, cn, from_dict) for cn in classes]
+        first = dict(first_base)
+        for i, x in enumerate(inv_list):
+            first.setdefault(x, len(base) + i)
+        sid = lambda x, first=first: first.get(x, 65535)   # noqa: E731
+        own = [first[x] for x in inv_list]
+        brow.append((bi, own, sid(''), [ent_literal(e, sid) for e in ents], blob[start:]))
+        ck.count('corr_binary_blocks')
+        ck.count('corr_binary_block_entities', len(ents))
+        ck.seen(('binblock', bi, len(blob)))
+    # ---- the file header: magic, version, block count and the first (thorough: all) position records
+    import struct
+    count = struct.unpack_from('<I', data, 4)[0]
+    pos, recs = 8, []
+    for _ in range(count):
+        n = struct.unpack_from('<H', data, pos)[0]
+        names = data[pos + 2:pos + 2 + n]
+        off, size = struct.unpack_from('<IH', data, pos + 2 + n)
+        recs.append((names, off, size, pos))
+        pos += 2 + n + 6
+    header_end = pos
+    nrec = count if ck.thorough else min(count, 8)
+    cut = header_end if nrec == count else recs[nrec][3]
+    impl_pos = [(list(cn), len(blob)) for cn, blob in db.unparsed]
+    consecutive = all(recs[i][1] + recs[i][2] == recs[i + 1][1] for i in range(count - 1))
+    names_match = all(recs[i][0].decode('utf8').split(E.STRING_SEP) == impl_pos[i][0] and recs[i][2] == impl_pos[i][1] for i in range(count))
+    ck.obligation('data:block_positions_are_consecutive', consecutive and names_match and count == nblocks,
+                  f'{count} position records of the shipped file: off[i] + size[i] == off[i+1] (the `positions` of c16_block_positions_slices), '
+                  f'names and sizes as EngineDB holds them')
+    exprs.append('match %s with 70 :: 71 :: 68 :: v :: a :: b :: c :: d :: r => (v =? bin_format_version) && (un32 a b c d =? %d) && '
+                 'match rd_n %d bpos_unser r with Some (l, rest) => list_eqb (fun x y => nlist_eqb (bp_names x) (bp_names y) && (bp_off x =? bp_off y) '
+                 '&& (bp_size x =? bp_size y)) l %s && (List.length rest =? 0)%%nat | None => false end | _ => false end'
+                 % (coq_N(data[:cut]), count, nrec, coq_list('mk_bpos %s %d %d' % (coq_N(nm), off, size) for nm, off, size, _ in recs[:nrec])))
+    pre = PRE + 'Definition base_canon : list N := %s.\n' % coq_N([first_base[x] for x in base]) + BIN_PRE
+    vals: list[str] = []
+    for lo in range(0, max(len(brow), 1), 25):     # <= 25 blocks (about 70 kB of bytes) per Coq file
+        part = (exprs if lo == 0 else []) + ['block_case %s %d (%s, %s)' % (coq_N(own), emp, coq_list(lits), coq_N(raw))
+                                             for bi, own, emp, lits, raw in brow[lo:lo + 25]]
+        got = ck.coq_eval(IMPORTS, part, name='binrec', preamble=pre, timeout=900)
+        if got is None:
+            ck.obligation('correspondence:binary_records', False, 'model could not be evaluated')
+            ck.tie_broken.append('correspondence binary records: model evaluation failed')
+            return
+        vals += got
+    bad = parse_coq_N_list(vals[0])
+    ck.obligation('correspondence:binary_header', vals[1] == 'true',
+                  f'bytes 0..{cut} of the shipped file: magic, BIN_FORMAT_VERSION, block count and {nrec} of {count} position records '
+                  f'(class-name bytes, offset, size) as header_unser / bpos_unser of Fmt/FgdBinEnt.v read them == what unserialise() reads')
+    if vals[1] != 'true':
+        ck.tie_broken.append('correspondence binary header (Fmt/FgdBinEnt.v vs _engine_db.unserialise)')
+    badb = [brow[i][0] for i, v in enumerate(vals[2:]) if v != 'true']
+    ck.obligation('correspondence:binary_records', not bad,
+                  f'{len(rows)} generated definitions: bytes written by ent_serialise == ent_ser of the model, and ent_unser of those '
+                  f'bytes == what ent_unserialise returns with nothing left over: {len(bad)} disagreements')
+    ck.obligation('correspondence:binary_blocks', not badb,
+                  f'{len(brow)} of {nblocks} blocks of the shipped database ({sum(len(r[3]) for r in brow)} definitions): block_unser of the '
+                  f'bytes after the dictionary == the definitions ent_unserialise returns, no byte left, and block_ser writes the same '
+                  f'bytes back: {len(badb)} disagreements' + (f' (blocks {badb[:5]})' if badb else ''))
+    if bad:
+        ck.tie_broken.append('correspondence binary records (Fmt/FgdBinEnt.v vs _engine_db.ent_serialise/ent_unserialise)')
+        ck.extra['binary_record_disagreement'] = {'literal': rows[bad[0]][0], 'bytes': list(rows[bad[0]][1]), 'read_back': rows[bad[0]][2]}
+    if badb:
+        ck.tie_broken.append('correspondence binary blocks (Fmt/FgdBinEnt.v vs the shipped fgd.lzma)')
+
+
+def coq_N(xs: Iterable[int]) -> str:
+    return '[' + ';'.join(str(int(x)) for x in xs) + ']'
+
+
 # ----------------------------------------------------------------------------------------------- lazy database
 def raw_db():
     import srctools
@@ -442,13 +1191,20 @@ def data_obligations(ck: Ck, data: bytes, tb: dict) -> None:
                   f'{len(tb["bases"])} definitions store base names')
 
 
-def corr_lazy(ck: Ck, data: bytes, tb: dict) -> None:
+def corr_lazy(ck: Ck, data: bytes, tb: dict, via: bool = True) -> None:
     """Which blocks are decoded after each engine-style query: real EngineDB.get_ent vs SM/LazyDb.v get_ent."""
     rng = ck.rng
     names, ident = tb['names'], tb['ident']
     alias_ids = list(tb['bases'])
     inv = {v: k for k, v in ident.items()}
+    # corpus (runs first): every alias whose target lives in ANOTHER block asked first on a fresh database, then
+    # target-before-alias and alias-before-target
+    block_of = {c: i for i, ids in enumerate(tb['blocks']) for c in ids}
+    cross = [(a, b) for a, bs in sorted(tb['bases'].items()) for b in bs if b and block_of.get(a) != block_of.get(b)]
+    ck.extra['cross_block_aliases'] = [(inv[a], inv[b]) for a, b in cross]
     seqs = []
+    for a, b in cross:
+        seqs += [[inv[a]], [inv[b], inv[a]], [inv[a], inv[b], inv[a]]]
     for _ in range(ck.budget(24, 200)):
         qs = []
         for _ in range(rng.choice([1, 4, 10, 25])):
@@ -467,37 +1223,47 @@ def corr_lazy(ck: Ck, data: bytes, tb: dict) -> None:
         db = fresh_db(data)
         trace = []
         for q in qs:
+            res: list[int] = []
             try:
                 ent = db.get_ent(q)
                 okv = 1 if ent.classname.casefold() == q.casefold() else 2
+                # what the stored base names were replaced by: the class of the definition object, 0 = still a name
+                for b in ent.bases:
+                    nm = b if isinstance(b, str) else b.classname
+                    if nm.casefold() != '_cbaseentity_':
+                        res.append(0 if isinstance(b, str) else ident.get(nm.casefold(), 0))
             except KeyError:
                 okv = 0
-            trace.append((okv, [i for i, (_, blob) in enumerate(db.unparsed) if not blob]))
+            trace.append((okv, [i for i, (_, blob) in enumerate(db.unparsed) if not blob], res))
+            ck.hist('lazy_answer_bases', 'none' if not res else ('resolved' if all(res) else 'left-as-name'))
         rows.append((qs, trace))
         ck.count('corr_lazy_sequences')
         ck.hist('lazy_seq_len', len(qs))
         if len(qs) > 1:
             ck.seen(('lazyseq', tuple(qs)))
-    ck.sample({'lazy_queries': rows[1][0][:6], 'blocks_decoded_after_each': [t[1] for t in rows[1][1][:6]]})
+    ck.sample({'lazy_queries': rows[1][0][:6], 'blocks_decoded_after_each': [t[1] for t in rows[1][1][:6]],
+               'bases_of_answers': [t[2] for t in rows[1][1][:6]]})
     pre = PRE + '''
 Definition ent0 : Type := (N * list N)%%type.
 Definition bases_tbl : list (N * list N) := %s.
 Definition bases_of (c : N) : list N := match find (fun p => fst p =? c) bases_tbl with Some p => snd p | None => [] end.
 Definition dec (cs : list N) (data : N) : list ent0 := map (fun c => (c, bases_of c)) cs.
 Definition blocksN : list (list N * N) := %s.
-Definition q1 (d : db N ent0 N) (c : N) := get_ent N ent0 N N.eqb dec (fun e => snd e) (N.eqb 0) 0 (List.length blocksN) d c.
-Fixpoint trace (d : db N ent0 N) (qs : list N) : list (N * list nat) :=
+Definition q1 (d : db N ent0 N) (c : N) := get_full N ent0 N N.eqb dec (fun e => snd e) (N.eqb 0) 0 lazy_via_get_ent (List.length blocksN) d c.
+Fixpoint trace (d : db N ent0 N) (qs : list N) : list (N * list nat * list N) :=
   match qs with [] => [] | c :: r => let '(x, d') := q1 d c in
-    ((match x with Some e => if fst e =? c then 1 else 2 | None => 0 end) + (if oof _ _ _ d' then 100 else 0),
-     parsed_blocks N ent0 N (N.eqb 0) d') :: trace d' r end.
-Fixpoint tr_eqb (a b : list (N * list nat)) : bool :=
-  match a, b with [], [] => true | (x, l) :: a', (y, m) :: b' => (x =? y) && nlist_eqb (map N.of_nat l) (map N.of_nat m) && tr_eqb a' b' | _, _ => false end.
+    ((match x with Some (e, _) => if fst e =? c then 1 else 2 | None => 0 end) + (if oof _ _ _ d' then 100 else 0),
+     parsed_blocks N ent0 N (N.eqb 0) d',
+     match x with Some (_, rb) => map (fun o => match o with Some b => fst b | None => 0 end) rb | None => [] end) :: trace d' r end.
+Fixpoint tr_eqb (a b : list (N * list nat * list N)) : bool :=
+  match a, b with [], [] => true | (x, l, p) :: a', (y, m, q) :: b' => (x =? y) && nlist_eqb (map N.of_nat l) (map N.of_nat m) && nlist_eqb p q && tr_eqb a' b' | _, _ => false end.
 ''' % (coq_list('(%d, [%s])' % (k, ';'.join(map(str, v))) for k, v in sorted(tb['bases'].items())),
        coq_list('([%s], %d)' % (';'.join(map(str, ids)), i + 1) for i, ids in enumerate(tb['blocks'])))
     lit = coq_list('([%s], %s)' % (';'.join(str(ident.get(q.casefold(), 0)) for q in qs),
-                                   coq_list('(%d, [%s]%%nat)' % (okv, ';'.join(map(str, pb))) for okv, pb in trace))
+                                   coq_list('(%d, [%s]%%nat, [%s])' % (okv, ';'.join(map(str, pb)), ';'.join(map(str, res)))
+                                            for okv, pb, res in trace))
                    for qs, trace in rows)
-    vals = ck.coq_eval(IMPORTS, [f'bad_idx (fun c : list N * list (N * list nat) => tr_eqb (trace (init N ent0 N blocksN) (fst c)) (snd c)) 0 {lit}'],
+    vals = ck.coq_eval(IMPORTS, [f'bad_idx (fun c : list N * list (N * list nat * list N) => tr_eqb (trace (init N ent0 N blocksN) (fst c)) (snd c)) 0 {lit}'],
                        name='lazy', preamble=pre, timeout=900)
     if vals is None:
         ck.obligation('correspondence:lazy_db', False, 'model could not be evaluated')
@@ -506,8 +1272,9 @@ Fixpoint tr_eqb (a b : list (N * list nat)) : bool :=
     bad = parse_coq_N_list(vals[0])
     ck.obligation('correspondence:lazy_db', not bad,
                   f'{len(rows)} query sequences on fresh copies of the shipped database ({len(tb["blocks"])} blocks, {len(names)} classes, '
-                  f'{len(alias_ids)} definitions with stored bases): set of decoded blocks and hit/miss after every query, '
-                  f'EngineDB.get_ent vs SM/LazyDb.v: {len(bad)} disagreements')
+                  f'{len(alias_ids)} definitions with stored bases): set of decoded blocks, hit/miss and what every stored base '
+                  f'name of the answer was replaced by, after every query, EngineDB.get_ent vs SM/LazyDb.v get_full (bases '
+                  f'resolved {"through get_ent" if via else "by a look-up in ent_map"}, as read from the source): {len(bad)} disagreements')
     if bad:
         ck.tie_broken.append('correspondence EngineDB.get_ent/_parse_block (SM/LazyDb.v)')
         ck.extra['lazy_disagreement'] = {'queries': rows[bad[0]][0], 'impl_trace': rows[bad[0]][1]}
@@ -690,7 +1457,9 @@ def search_bundled(ck: Ck) -> None:
     from srctools.fgd import FGD
     fgd = FGD.engine_dbase()
     ck.extra['bundled_entities'] = len(fgd.entities)
-    for opts in OPTS:
+    # quick tier: both syntaxes, once with and once without spawnflag labels; all four combinations in the thorough tier
+    # and as soon as any tie is broken
+    for opts in (OPTS if ck.budget(2, 4) == 4 else [OPTS[0], OPTS[3]]):
         on = opt_name(opts)
         r = roundtrip_fgd(fgd, opts)
         ck.count('search_bundled_entities', len(fgd.entities))
@@ -1031,7 +1800,7 @@ def search_lazy(ck: Ck, data: bytes, tb: dict) -> None:
     names = tb['names']
     inv = {v: k for k, v in tb['ident'].items()}
     alias_names = [inv[i] for i in tb['bases']]
-    rounds = ck.budget(6, 30)
+    rounds = ck.budget(4, 30)
     for r in range(rounds):
         db = fresh_db(data)
         if r == 0:
@@ -1043,7 +1812,12 @@ def search_lazy(ck: Ck, data: bytes, tb: dict) -> None:
         got_first: dict[str, dict] = {}
         for q in order:
             asked = q.upper() if rng.random() < 0.1 else q       # class names are case-insensitive
-            ent = copy.deepcopy(db.get_ent(asked))               # what EntityDef.engine_def does
+            try:
+                ent = copy.deepcopy(db.get_ent(asked))           # what EntityDef.engine_def does
+            except Exception as ex:   # noqa: BLE001
+                ck.violation('lazy-lookup-raises:' + type(ex).__name__, f'get_ent({asked!r}) after {order.index(q)} other look-ups raises {ex!r}',
+                             {'kind': 'lazy', 'order_prefix': order[:order.index(q) + 1][-20:], 'query': asked})
+                continue
             c = canon_ent(ent)
             ck.count('search_lazy_lookups')
             # bases must be resolved objects whose own definitions equal the eager ones
@@ -1076,19 +1850,115 @@ def search_lazy(ck: Ck, data: bytes, tb: dict) -> None:
         ck.violation('lazy-engine-dbase-after-lookups', f'FGD.engine_dbase() after individual look-ups differs for {bad[:5]}', {'kind': 'lazy', 'entities': bad[:10]})
 
 
+def synth_db(rng: random.Random, shape: str, fixed_blocks: Optional[list[list[str]]] = None) -> tuple[Any, dict[str, list[str]], list[list[str]]]:
+    """A hand-built EngineDB (the real serialisers, a full shared dictionary) whose alias entities point ACROSS blocks:
+    shape `chain` (a -> b -> c, one per block), `cycle` (a <-> b in different blocks), `fan` (several aliases of one target
+    in another block), `mixed`.  Returns the database, the stored base names per class and the block layout."""
+    from srctools import _engine_db as E
+    from srctools.fgd import EntityDef, EntityTypes, KVDef, ValueTypes
+    layouts = {
+        'chain': ([['a'], ['b'], ['c', 'x']], {'a': ['b'], 'b': ['c']}),
+        'cycle': ([['a', 'x'], ['b']], {'a': ['b'], 'b': ['a']}),
+        'fan': ([['a', 'b'], ['t'], ['c']], {'a': ['t'], 'b': ['t'], 'c': ['t']}),
+        'mixed': ([['a', 'p'], ['b', 'q'], ['c']], {'a': ['b', 'q'], 'b': ['c'], 'p': ['a']}),
+    }
+    blocks, bases = layouts[shape]
+    blocks = [list(b) for b in blocks]
+    rng.shuffle(blocks)
+    if fixed_blocks is not None:
+        blocks = [[cn[4:] for cn in b] for b in fixed_blocks]
+    ents: dict[str, Any] = {}
+    for b in blocks:
+        for cn in b:
+            e = EntityDef(EntityTypes.POINT, 'Syn_' + cn, is_alias=cn in bases)
+            e.bases = ['Syn_' + x for x in bases.get(cn, [])]
+            e.keyvalues['kv_' + cn] = {frozenset(): KVDef('kv_' + cn, ValueTypes.INT, 'Disp ' + cn, str(rng.randint(0, 9)))}
+            ents[cn] = e
+    shared = sorted(['', 'Disp a'] + [f'shared{i:03d}' for i in range(E.SHARED_STRINGS - 2)])
+    base_dict = E.BinStrDict(shared, None)
+    unparsed, ent_map = [], {}
+    for bi, b in enumerate(blocks):
+        need: set[str] = set()
+        for cn in b:
+            E.ent_serialise(ents[cn], io.BytesIO(), lambda x, need=need: (need.add(x), b'\0\0')[1])
+        d = E.BinStrDict(need - set(shared), base_dict)
+        f = io.BytesIO()
+        d.serialise(f)
+        for cn in b:
+            E.ent_serialise(ents[cn], f, d)
+            ent_map[('Syn_' + cn).casefold()] = bi
+        unparsed.append((['Syn_' + cn for cn in b], f.getvalue()))
+    ent_map['_cbaseentity_'] = EntityDef(EntityTypes.BASE, '_CBaseEntity_')
+    return E.EngineDB(ent_map, shared, unparsed), {'Syn_' + k: ['Syn_' + x for x in v] for k, v in bases.items()}, \
+        [['Syn_' + cn for cn in b] for b in blocks]
+
+
+def search_lazy_synthetic(ck: Ck) -> None:
+    """Cross-block alias chains, cycles and fans in hand-built databases: every query order on a fresh database must give
+    definitions whose bases are the definition objects of the named classes (and must terminate)."""
+    import sys
+    rng = ck.rng
+    for i in range(ck.budget(120, 1000)):
+        shape = ['chain', 'cycle', 'fan', 'mixed'][i % 4]
+        state = rng.getstate()
+        try:
+            db, bases, blocks = synth_db(rng, shape)
+        except Exception as ex:   # noqa: BLE001
+            ck.violation('binary-serialise-raises', f'building a synthetic database raises {type(ex).__name__}: {ex}', {'kind': 'binary'})
+            continue
+        names = [cn for b in blocks for cn in b]
+        order = [rng.choice(names) for _ in range(rng.randint(1, 6))]
+        ck.count('search_lazy_synthetic')
+        ck.hist('lazy_synthetic_shape', shape)
+        ck.seen(('lazysyn', shape, tuple(order), tuple(map(tuple, blocks))))
+        replay = {'kind': 'lazy_synthetic', 'shape': shape, 'blocks': blocks, 'order': order}
+        old = sys.getrecursionlimit()
+        sys.setrecursionlimit(400)
+        try:
+            for q in order:
+                ent = db.get_ent(q.upper() if rng.random() < 0.2 else q)
+                want = bases.get(q, [])
+                got = [b for b in ent.bases if getattr(b, 'classname', b) != '_CBaseEntity_']
+                if any(isinstance(b, str) for b in got):
+                    ck.violation('lazy-base-unresolved', f'get_ent({q!r}) on a hand-built database ({shape}: {blocks}) after {order[:order.index(q)]} '
+                                 f'returned a definition whose base {[b for b in got if isinstance(b, str)]} is still a name', replay)
+                elif [b.classname for b in got] != want or any(('kv_' + b.classname[4:]) not in b.keyvalues for b in got):
+                    ck.violation('lazy-base-differs', f'get_ent({q!r}) on a hand-built database ({shape}): bases {[b.classname for b in got]}, stored {want}', replay)
+                if ent.classname != q or ('kv_' + q[4:]) not in ent.keyvalues:
+                    ck.violation('lazy-differs-from-eager:classname+keyvalues', f'get_ent({q!r}) returned {ent.classname} with keyvalues {list(ent.keyvalues)}', replay)
+        except RecursionError:
+            ck.violation('lazy-base-lookups-do-not-terminate', f'get_ent on a hand-built database ({shape}: {blocks}) with queries {order} recurses without end',
+                         replay)
+        except Exception as ex:   # noqa: BLE001
+            ck.violation('lazy-lookup-raises:' + type(ex).__name__, f'get_ent on a hand-built database ({shape}) with queries {order}: {ex}', replay)
+        finally:
+            sys.setrecursionlimit(old)
+        del state
+
+
 # =============================================================================================== main
 def run(ck: Ck) -> None:
     ck.rule = ('long strings: texts built from words, escapes and runs without spaces with lengths around multiples of LIMIT and an '
                'escape placed at the cut, distinct by (syntax, text), non-trivial = needs escaping or splitting; generated FGDs: 1-4 '
                'entities with every value type, empty/long texts, tagged duplicates, aliases, helpers, resources, distinct by content, '
                'non-trivial = has keyvalues; bundled database: all entities x 4 option sets; binary: the whole database plus generated '
-               'engine-style entities; lazy: random permutations/samples of classes (aliases always included) on fresh databases, '
-               'non-trivial = more than one query')
-    ck.trusted.append('hand-written models Fmt/LongString.v, Fmt/FgdBin.v, SM/LazyDb.v (tied by differential correspondence on every run)')
-    ck.trusted.append('the FGD grammar (EntityDef.parse/KVDef._parse/export) is outside every model: covered by search only')
+               'engine-style entities; binary records: generated engine-style definitions (byte-exact) and blocks of the shipped file; text '
+               'lines: generated keyvalue / IO lines and @resources blocks (every value type, tags, long strings rare) as token lists, each also '
+               'with 1-2 random token mutations, non-trivial = more than 6 tokens; lazy: random permutations/samples of classes (aliases '
+               'always included, cross-block aliases first) on fresh databases and hand-built databases with cross-block alias chains, '
+               'cycles and fans, non-trivial = more than one query')
+    ck.trusted.append('hand-written models Fmt/LongString.v, Fmt/FgdBin.v, Fmt/FgdBinEnt.v, Fmt/FgdLine.v, SM/LazyDb.v (tied by differential '
+                      'correspondence on every run; decisive branches and layouts read from the source by the translator)')
+    ck.trusted.append('srctools.tokenizer.Tokenizer as the lexer of the text-line correspondences (only quoted strings are modelled at character level)')
+    ck.trusted.append('entity headers, helpers, snippets and the order of lines inside an entity are outside every model: covered by search only')
     ck.assumptions += [
         'ent_unserialise is a function of the block bytes and the immutable shared strings (parameter `decode` of c16_lazy_equals_eager)',
         'lzma.compress/decompress are inverse (outside the model)',
+        'line theorems: value types, tags and numbers are abstract; premises vt_lookup(vt_text v) = (false, v), io_lookup(io_text v) = decay v, '
+        'rt_lookup(rt_text t) = t, tags in read_tags normal form are checked on the real tables (data obligations); casefold on the keywords '
+        'readonly/report/yes/no/@resources is modelled as ASCII lower-casing',
+        'binary record theorem: spawnflag masks are powers of two below 2^128, SPAWNFLAGS keyvalues carry no default and other keyvalues no '
+        'flag list (what the parser produces); the format does not carry descriptions, helpers, keyvalue tags, kv_order, reportable',
         'custom_syntax=False cannot represent ", \\ and CR in texts, nor tags/resources/extension helpers/aliasof (documented loss)',
         'accepted normalisations: I/O type decay, empty BOOL default = "0", effective keyvalue order, newline -> space in choice/flag names',
     ]
@@ -1119,12 +1989,39 @@ def run(ck: Ck) -> None:
             'bit_literals_are_128_127': 'bit_literals_ok',
             'index_formats': 'index_formats_ok',
             'shared_strings_fit_u16': 'N.ltb shared_strings 65536',
+            'binary_tables_fit_the_record_model': 'bin_tables_ok',
+            'binary_header_formats': 'header_formats_ok',
+            'binary_layout_kv_serialise': 'layout_kv_writer_ok',
+            'binary_layout_kv_unserialise': 'layout_kv_reader_ok',
+            'binary_layout_iodef': 'layout_io_ok',
+            'binary_layout_ent_serialise': 'layout_ent_writer_ok',
+            'binary_layout_ent_unserialise': 'layout_ent_reader_ok',
+            'text_kv_two_colons_before_description_without_default': '(colons_before_desc_without_default gen_line_cfg =? 2)%nat',
+            'text_kv_one_colon_between_default_and_description': '(kv_colons_after_default =? 1)%nat',
+            'text_bool_default_written_as_0': 'bool_default_filled gen_line_cfg',
+            'text_resources_block_written_when_defined': 'res_block_if_defined gen_line_cfg',
+            'text_line_cfg_ok_is_these': 'Bool.eqb (line_cfg_ok gen_line_cfg) ((colons_before_desc_without_default gen_line_cfg =? 2)%nat '
+                                         '&& bool_default_filled gen_line_cfg && res_block_if_defined gen_line_cfg)',
+            'text_empty_resources_need_the_block': 'empty_resources_need_block',
+            'lazy_bases_resolved_through_get_ent': 'lazy_via_get_ent',
+            'lazy_map_lookup_is_refuted': 'map_lookup_breaks',
         }, name='c16')
         data_obligations(ck, data, tb)
         corr_writer_reader(ck)
         corr_bits(ck)
         corr_strdict(ck)
-        corr_lazy(ck, data, tb)
+        corr_binary_records(ck, data, tb)
+        line_data_obligations(ck)
+        corr_lines(ck)
+        lazy_side = side.get('engine_db', {}).get('lazy', {})
+        corr_lazy(ck, data, tb, bool(lazy_side.get('via_get_ent', True)))
+        # Information only: the model marks a block as decoded before its bases loop, as the source does today.  Marking it
+        # afterwards is observably the same (ent_map already holds the block's definitions, so no look-up re-enters the block):
+        # no obligation, the lazy budgets are raised instead.
+        ck.extra['lazy_block_marked_before_bases_loop'] = bool(lazy_side.get('mark_before_resolve', True) and lazy_side.get('mark_after_decode', True))
+        if not ck.extra['lazy_block_marked_before_bases_loop']:
+            ck.notes.append('_parse_block no longer marks the block as decoded between the decoding loop and the bases loop: lazy budgets raised')
+            ck.tie_broken.append('shape of _parse_block changed (mark position): budgets raised, no obligation')
         # informational: duplicates in the order lists (harmless, see c16_order_roundtrip)
         vo = side.get('engine_db', {}).get('vt_order', [])
         ck.extra['value_type_order_duplicates'] = sorted({x for x in vo if vo.count(x) > 1})
@@ -1133,6 +2030,7 @@ def run(ck: Ck) -> None:
     search_generated(ck)
     search_binary(ck, data)
     search_lazy(ck, data, tb)
+    search_lazy_synthetic(ck)
     keys = {v['key'] for v in ck.violations}
     # Failed obligations are explained by a concrete violation of the same mechanism (with a replayable input).
     if any(k.startswith('longstring:empty-text') or k.startswith('bundled-db-export-unparseable:empty-display-name') for k in keys):
@@ -1148,8 +2046,27 @@ def run(ck: Ck) -> None:
         ck.explain('instance:entflags_layout')
         ck.explain('correspondence:bit_packings')
         ck.explain('correspondence:BinStrDict')
+        ck.explain('correspondence:binary_')
+        ck.explain('instance:binary_')
+    if any('resources' in k and (k.startswith('generated-fgd') or k.startswith('bundled-db')) for k in keys):
+        ck.explain('instance:text_resources_block_written_when_defined')
+        ck.explain('instance:text_line_cfg_ok_is_these')
+    if any(k.startswith('generated-fgd') or k.startswith('bundled-db') for k in keys):
+        ck.explain('instance:text_kv_')
+        ck.explain('instance:text_bool_')
+        ck.explain('instance:text_line_cfg_ok_is_these')
+        ck.explain('correspondence:text_lines_')
+    # a translator that failed closed at a site is explained by a concrete violation of the mechanism that site belongs to
+    site_of = (('EngineDB', 'lazy-'), ('_parse_block', 'lazy-'), ('get_fgd', 'lazy-'), ('serialise', 'binary-'), ('BinStrDict', 'binary-'),
+               ('_write_longstring', 'longstring:'), ('_fgd_escape', 'longstring:'), ('ESCAPE', 'longstring:'),
+               ('KVDef.export', 'generated-fgd'), ('IODef.export', 'generated-fgd'), ('EntityDef.export', 'generated-fgd'))
+    for tie in ck.tie_broken:
+        if tie.startswith('translator '):
+            if any(word in tie and any(k.startswith(pref) for k in keys) for word, pref in site_of):
+                ck.explain('translate:')
     if any(k.startswith('lazy-') for k in keys):
         ck.explain('correspondence:lazy_db')
+        ck.explain('instance:lazy_')
 
 
 # =============================================================================================== replay
@@ -1172,6 +2089,20 @@ def replay(data: dict) -> int:
         except Exception as e:   # noqa: BLE001
             print('parse error:', e)
         return 1
+    if kind == 'lazy_synthetic':
+        db, bases, blocks = synth_db(random.Random(0), r['shape'], r['blocks'])
+        print('blocks:', blocks, ' stored bases:', bases)
+        bad = 0
+        try:
+            for q in r['order']:
+                ent = db.get_ent(q)
+                got = [b if isinstance(b, str) else f'<EntityDef {b.classname}>' for b in ent.bases]
+                print(f'get_ent({q!r}).bases = {got}')
+                bad += any(isinstance(b, str) for b in ent.bases)
+        except RecursionError:
+            print('RecursionError: the base look-ups do not terminate')
+            bad += 1
+        return 1 if bad else 0
     if kind == 'bundled':
         from srctools.fgd import FGD
         res = roundtrip_fgd(FGD.engine_dbase(), r['opts'])
